@@ -19,6 +19,48 @@ _KNOWN = ["all_mutating_nodes_guarded_partial", "setconst_counterexample", "sand
 _FIXED = ["all_mutating_nodes_guarded", "sandbox_noninterference_pinned", "setconst_guard_is_necessary"]
 
 
+# Behaviour-preserving rewrites of the anchored code on which the whole check flow was run and must stay silent
+# (exit 0, no VIOLATION line).  The patches are kept under corpus/C19/negative_controls/ as documentation; the check
+# does not apply them.  `first` says what alarmed when the control was first tried and what was made semantic.
+NEGATIVE_CONTROLS = [
+    {"id": "nc1", "patch": "nc1_while_guard_braces_comment_message.diff",
+     "what": "WhileExpression guard with a comment before it, braces and another message text (coordinator)",
+     "first": "translator said `unguarded` (regex on the literal first line), driver compared the error KIND read from the message text; "
+              "now: guard recognised on the clang AST / normalised statements, driver compares value-vs-error only"},
+    {"id": "nc2", "patch": "nc2_coordinator_mixed.diff",
+     "what": "coordinator's second control (reordered independent statements and renamed locals in other anchored code)", "first": "silent"},
+    {"id": "nc3", "patch": "nc3_guard_in_helper_function_and_macro.diff",
+     "what": "guards of Set/SetConst/While/For moved into `static void RequireUnsandboxed(frame, what, di)`, guards of Import/Apply "
+             "into a `SANDBOX_GUARD(frame, msg)` do-while(0) macro",
+     "first": "translator: six nodes `unguarded`; now the sandboxed path is analysed: a first effective statement that calls a helper with "
+              "the frame is followed into the helper (second AST pass / same-file lookup), macros are read after preprocessing"},
+    {"id": "nc4", "patch": "nc4_inverted_if_else_and_guard_after_harmless_locals.diff",
+     "what": "`if (!frame.Sandboxed) { body } else throw`, `if (frame.Sandboxed == false) {} else throw`, guard after plain local "
+             "declarations, call check as nested ifs",
+     "first": "translator: three nodes + call check `absent`; now negated conditions continue on the else path, declarations whose "
+              "initialisers contain no call/assignment are skipped, conjuncts may be spread over nested ifs"},
+    {"id": "nc5", "patch": "nc5_registrations_other_macro_named_constant_moved_reordered.diff",
+     "what": "safe functions registered through a new, equivalent macro with a named constant as flag, registrations moved to another "
+             "file of lib/base and reordered, prototype methods flagged through a constexpr",
+     "first": "translator raised `lost anchor` (flag argument not a literal) and missed the new macro; now registrations are read from "
+              "the PREPROCESSED sources (`g++ -E`: any macro reads as the constructor call), named bool constants are resolved, a flag "
+              "that cannot be read statically is `unknown` (the implementation's own flag is used, calls stay snapshot-checked)"},
+    {"id": "nc6", "patch": "nc6_other_messages_and_exception_subclass.diff",
+     "what": "guards throw a subclass of ScriptError with other texts (one as a raw `throw`), hidden-field and callback messages reworded",
+     "first": "silent after nc1's change (before it: outcome kind `err` instead of `sandbox`/`hidden` => MISMATCH and a false "
+              "only_side_effect_free SPECFAIL); the verdict uses snapshot diff, planted markers and counting wrappers, never texts"},
+    {"id": "nc7", "patch": "nc7_no_user_view_check_early_return_and_predicate.diff",
+     "what": "Object::GetFieldByName: `if (!sandboxed) return GetField(fid);` first, FANoUserView test behind a static predicate",
+     "first": "translator: fieldCheck=false; now early return on `!sandboxed` puts the rest under `sandboxed`, a predicate of the same "
+              "file whose return expression is the FANoUserView test counts as that test"},
+    {"id": "nc8", "patch": "nc8_renamed_params_locals_braces_comments_moved_lines_call_sites.diff",
+     "what": "parameter `frame` and locals renamed, braces/comments/blank lines, init_dict guard moved to the top, Reference::Get flag as "
+             "a named constant, frame creation in eventqueue/consolehandler reordered, local in ScriptFrame::InitializeFrame renamed",
+     "first": "translator lost its anchor (signature regex demanded the name `frame`), frameInherits=false, refGetSandboxed unreadable; "
+              "now parameters are identified by position/declaration, constants are resolved"},
+]
+
+
 def _setconst_known():
     return any(k.get("id") == "F-C19a" and k.get("status") == "known" for k in core.known_findings("C19"))
 
